@@ -286,17 +286,19 @@ impl Property for C12 {
             return out;
         }
         lines.truncate(kinds.len());
-        if sc.no_final_newline && lines.last().map_or(false, |l| l.0.is_empty()) {
-            // an empty last line without terminator is no line at all
+        let mut no_final_newline = sc.no_final_newline;
+        if no_final_newline && lines.last().map_or(false, |l| l.0.is_empty()) {
+            // an empty last line without terminator is no line at all: the line before it ends with its terminator
             lines.pop();
             kinds.pop();
+            no_final_newline = false;
         }
         let script: Vec<String> = lines.iter().map(|l| l.0.clone()).collect();
         // the real interactive interpreter
         let mut plan = sc.plan.clone();
         plan.tick_budget = steps_total + 300;
         plan.sigint_at.retain(|&x| (x as usize) <= script.len());
-        let stdin = script_bytes(&script, sc.no_final_newline, sc.knob("crlf") == 1);
+        let stdin = script_bytes(&script, no_final_newline, sc.knob("crlf") == 1);
         let (ending, _, world) = sim::run_process(plan, stdin, || {
             use hyeong::util::option::HyeongOption;
             use termcolor::{ColorChoice, StandardStream};
